@@ -333,6 +333,8 @@ class ThreadPoolServer(Server):
         self.fd_to_conn = {}
         # a polling object to be used be the polling thread
         self.poll_object = poll()
+        # guards fd_to_conn: descriptor numbers are recycled as soon as a connection closes its socket
+        self._fd_to_conn_lock = threading.Lock()
 
     def _listen(self):
         if self.active:
@@ -374,17 +376,17 @@ class ThreadPoolServer(Server):
             # the connection has already been unregistered
             pass
 
-    def _drop_connection(self, fd):
-        '''removes a connection by closing it and removing it from internal structs'''
-        conn = None
-
+    def _drop_connection(self, fd, conn=None):
+        '''removes a connection by closing it and removing it from internal structs.
+        If `conn` is given, the entry of `fd` is removed only while it still belongs to that
+        connection: a connection that failed has already closed its socket, so the descriptor
+        number may by now name a newer connection, which must be left alone'''
         # cleanup fd_to_conn dictionnary
-        try:
-            conn = self.fd_to_conn[fd]
-            del self.fd_to_conn[fd]
-        except KeyError:
-            # the active connection has already been removed
-            pass
+        with self._fd_to_conn_lock:
+            if conn is None:
+                conn = self.fd_to_conn.pop(fd, None)
+            elif self.fd_to_conn.get(fd) is conn:
+                del self.fd_to_conn[fd]
 
         # close connection
         self.logger.info("Closing connection for fd %d", fd)
@@ -432,15 +434,17 @@ class ThreadPoolServer(Server):
     def _serve_requests(self, fd):
         '''Serves requests from the given connection and puts it back to the appropriate queue'''
         # serve a maximum of RequestBatchSize requests for this connection
+        conn = None
         for _ in range(self.request_batch_size):
             try:
-                if not self.fd_to_conn[fd].poll():  # note that poll serves the request
+                conn = self.fd_to_conn[fd]
+                if not conn.poll():  # note that poll serves the request
                     # we could not find a request, so we put this connection back to the inactive set
                     self._add_inactive_connection(fd)
                     return
             except EOFError:
                 # the connection has been closed by the remote end. Close it on our side and return
-                self._drop_connection(fd)
+                self._drop_connection(fd, conn)
                 return
             except Exception:
                 # put back the connection to active queue in doubt and raise the exception to the upper level
@@ -498,7 +502,8 @@ class ThreadPoolServer(Server):
             addrinfo = sock.getpeername()
             fd = conn.fileno()
             self.logger.debug("Created connection to %s with fd %d", addrinfo, fd)
-            self.fd_to_conn[fd] = conn
+            with self._fd_to_conn_lock:
+                self.fd_to_conn[fd] = conn
             self._add_inactive_connection(fd)
             self.clients.clear()
         except Exception:
